@@ -8,8 +8,9 @@ import (
 	proto "github.com/akrennmair/updog/proto/updog/v1"
 )
 
-// NewServer returns the gRPC handler type of `updog server` over idx.
-func NewServer(idx *updog.Index) proto.QueryServiceServer { return &server{idx: idx} }
+// NewServer returns the gRPC service value of `updog server` over idx, built by the expression the program itself
+// passes to RegisterQueryServiceServer (lifted by the instrumenter, rewrite R4b); nil if that was not possible.
+func NewServer(idx *updog.Index) proto.QueryServiceServer { return VerifNewServer(idx) }
 
 // Create runs `updog create [-b] -o out in` in-process.
 func Create(in, out string, big, verbose bool) error {
